@@ -146,6 +146,21 @@ Theorem close_reports_own_calls :
 Proof. exact close_reports_own_calls_lemma. Qed.
 Print Assumptions close_reports_own_calls.
 
+(* The Writer's own sticky error, in strict form: for all sequences of Writer
+   calls (each any sequence of operations at the bufio boundary) and every
+   fault: if a call that records (Put, WriteCompressed, the Write or Close of a
+   stream) returns an error, that error is the sink's, and every later Put,
+   OpenStream, WriteCompressed and Close returns it. *)
+Theorem writer_sticky :
+  forall (f : fault) (pre : list wcall) (c : wcall) (mid : list wcall) (k : nat) (c2 : wcall),
+    c_records c = true ->
+    nth (length pre) (run_calls (Some f) (pre ++ c :: mid) (None, w0)) None <> None ->
+    nth_error mid k = Some c2 -> c_checks c2 = true ->
+    nth (length pre) (run_calls (Some f) (pre ++ c :: mid) (None, w0)) None = Some (fid f) /\
+    nth (length pre + 1 + k) (run_calls (Some f) (pre ++ c :: mid) (None, w0)) None = Some (fid f).
+Proof. exact writer_sticky_lemma. Qed.
+Print Assumptions writer_sticky.
+
 (* Every index of a sink call of the fault-free run, both fault modes: the
    error comes back no later than the Flush of Close, or from the Close of the
    sink if the Writer owns it. *)
